@@ -3,5 +3,5 @@ CONSTANTS
   N = 3
   W = 3
   KeepRest = TRUE
-INVARIANTS NothingLost UnsatExact
+INVARIANTS NothingLost UnsatExact EmitSplit
 CHECK_DEADLOCK FALSE
